@@ -378,6 +378,46 @@ def check(ctx):
                        file=b.mod.path, line=fn.lineno)
             else:
                 o.witness(meth)
+        # every other method through which a part's history is edited must be overridden by Batch as well (a helper that edits
+        # the list itself and that Batch inherits updates the batch object only), and no other class may edit the list directly
+        from ..inventory import attr_uses, method_calls
+        MUT = {'append', 'pop', 'insert', 'remove', 'extend', 'clear', 'reverse', 'sort'}
+        base_classes = [k for k in b.mro if k is not b]
+        def forwarded(cls, name, seen):
+            # a Batch reaches this method of a base class only through code that also updates the contained parts: Batch overrides
+            # it, or every call of it is `self.<name>(...)` inside base-class methods for which the same holds
+            if any(name in k.methods for k in b.mro[:b.mro.index(cls)]):
+                return True
+            if (cls, name) in seen:
+                return True
+            for call in method_calls(P, name):
+                if call.extra['recv'] == 'super()' and call.cls is b:
+                    continue
+                if call.extra['recv'] != 'self' or call.cls not in base_classes or call.func is None:
+                    return False
+                if not forwarded(call.cls, call.func.name, seen + ((cls, name),)):
+                    return False
+            return True
+
+        for site in attr_uses(P, '_routing_history'):
+            role = site.extra['role']
+            if not (role[0] in ('store', 'del', 'augstore', 'subscript-store', 'subscript-del') or (role[0] == 'method' and role[1] in MUT)):
+                continue
+            if site.func is None or site.func.name == '__init__':
+                continue
+            recv = ast.unparse(site.node.value)
+            o.count()
+            if site.cls in base_classes and recv == 'self':
+                if forwarded(site.cls, site.func.name, ()):
+                    o.witness(('override', site.func.name))
+                else:
+                    o.fail(P, f'{site.cls.name}.{site.func.name}', site.stmt, f'{site.cls.name}.{site.func.name} edits the routing history of the object itself and Batch does not '
+                           f'override it: for a batch the parts it contains are not updated', file=site.mod.path, line=site.line)
+            elif site.cls is b and recv == 'self':
+                o.witness(('batch', site.func.name))
+            elif not (site.cls in base_classes or site.cls is b):
+                o.fail(P, site.ctx, site.stmt, 'the routing history list is edited from outside Part/Batch: for a batch the parts it contains are not updated',
+                       file=site.mod.path, line=site.line)
         init = P.method(b, '__init__')[1]
         o.count()
         if not any(isinstance(x, ast.Assign) and ast.unparse(x.targets[0]) == 'self.parts' for x in ast.walk(init)):
